@@ -501,7 +501,6 @@ class NodeDefDestructuring:
 
     def evaluate(self, environment):
         value = self.expression.evaluate(environment)
-        value.info = self.info
         if not value.isList() and not value.isSet():
             raise CklRuntimeError(
                 ValueString("ERROR"),
@@ -509,6 +508,7 @@ class NodeDefDestructuring:
                 f"set but got {value.type()}",
                 self.pos,
             )
+        value.info = self.info
         values = None
         if value.isList():
             values = value.value
